@@ -73,9 +73,9 @@ PLANS = {
             {"name": "chain1", "module": "System", "constants": {"ChainLen": "1", "Walkers": "0"}, "invariants": ["GenInv"],
              "tier_constants": {"quick": {"StartSet": '"tiny"'}, "thorough": {"StartSet": '"small"'}}},
             {"name": "walks", "module": "System", "constants": {"StartSet": '"full"'}, "invariants": ["GenInv"],
-             "tier_constants": {"quick": {"ChainLen": "6", "Walkers": "1500"}, "thorough": {"ChainLen": "10", "Walkers": "20000"}}},
+             "tier_constants": {"quick": {"ChainLen": "6", "Walkers": "1500"}, "thorough": {"ChainLen": "10", "Walkers": "8000"}}},
         ],
-        "bounds": "exhaustive: every enabled step (19 functions x arguments drawn from the current documents x source/destination registers) from every pair of start documents; random walks of the state machine: quick 1500 walks x 6 steps, thorough 20000 x 10, each replayed on the real crate with its own output bytes threaded from call to call and all results appended to one buffer",
+        "bounds": "exhaustive: every enabled step (19 functions x arguments drawn from the current documents x source/destination registers) from every pair of start documents; random walks of the state machine: quick 1500 walks x 6 steps, thorough 8000 x 10, each replayed on the real crate with its own output bytes threaded from call to call and all results appended to one buffer",
     },
     "C08": {
         "must_see": ["select:select"],
